@@ -1,5 +1,5 @@
 #!/bin/bash
-# Builds the checker and warms the Go build cache, offline, from files on disk only.
+# Builds the checker and both CLI binaries and warms the Go build cache, offline, from files on disk only.
 cd "$(dirname "$0")" || exit 2
 export GOFLAGS=-mod=mod GOPROXY=off
 unset GOSUMDB
@@ -7,4 +7,11 @@ mkdir -p bin evidence
 cp /repo/go.sum go.sum
 go build -tags verif -o bin/vcheck ./cmd/vcheck || exit 1
 (cd /repo && go build -tags verif -o /verif/bin/gleece . && go build -o /verif/bin/gleece-plain .) || exit 1
+# warm-up: compile the five engines once (one runtime-seam scenario) so that the first quick check does not pay for it
+f=$(mktemp /dev/shm/verif-warm-XXXX.json)
+echo '{"property":"C03","violation":{"oracle":"warmup","features":{},"what":"","case":{"id":"a0000"}}}' > "$f"
+VERIF_ROOT=$(mktemp -d /dev/shm/verif-warmroot-XXXX) ; export VERIF_ROOT
+cp known_findings.json "$VERIF_ROOT"/ ; mkdir -p "$VERIF_ROOT/bin" ; cp bin/gleece bin/gleece-plain "$VERIF_ROOT/bin"/
+./bin/vcheck C03 replay "$f" > /dev/null 2>&1
+rm -rf "$f" "$VERIF_ROOT"
 echo setup ok
